@@ -742,6 +742,7 @@ func cmdCheck(args []string) int {
 		"known_findings":           knownLines,
 		"abstracted_constructs":    abstrL,
 		"bounded_refutation":       boundedNote,
+		"slow_obligations_left_to_the_thorough_tier": nSlowSkipped,
 		"rule":                     "one obligation per contract clause, loop-invariant step, call precondition and implicit Go safety condition, per case of the declared case split; an obligation counts only if it was discharged on the pinned tree (obligations.lock)",
 	}
 	ev.WallS = round3(time.Since(t0).Seconds())
